@@ -5,7 +5,9 @@ domain of values.py; non-determinism (entropy, unknown pre-state, mutator result
 resolved by a *decision script*; the explorer enumerates all scripts depth-first by
 re-execution, so interpreter state is never copied.
 """
+import os
 import re
+import time
 import sys
 
 from values import (Agg, Box_, Bytes, FnItem, INT_TYPES, Opaque, PathEnd, Payload, Ref, Sym, UNINIT,
@@ -192,11 +194,19 @@ class Run:
         return None
 
 
+EXPLORE_BUDGET_S = float(os.environ.get("PFZ_EXPLORE_BUDGET", "300"))
+
+
 def explore(fn, max_runs=200000):
-    """Run `fn(run)` for every decision script.  Yields (run, result|exception)."""
+    """Run `fn(run)` for every decision script.  Yields (run, result|exception).
+    One exploration (one function on one abstract input) that does not finish within the budget fails closed: in practice this is a
+    data-dependent loop over symbolic data (e.g. a per-byte loop over a string of unknown length), which forks at every iteration."""
     script = []
     n = 0
+    t0 = time.time()
     while script is not None:
+        if time.time() - t0 > EXPLORE_BUDGET_S:
+            raise Unanalysable("exploration exceeds the time budget of %ds after %d paths (a loop whose trip count depends on symbolic data?)" % (EXPLORE_BUDGET_S, n))
         run = Run(script)
         try:
             res = fn(run)
@@ -993,6 +1003,8 @@ class Interp:
                 blk = blocks[bb]
                 for st in blk["s"]:
                     self.run.steps += 1
+                    if self.run.steps % 20000 == 0 and time.time() - self.run.__dict__.setdefault("t0", time.time()) > EXPLORE_BUDGET_S:
+                        raise Unanalysable("one path runs longer than the %ds budget (%d steps): loop over symbolic data?" % (EXPLORE_BUDGET_S, self.run.steps))
                     self.site = st.get("ln")
                     sk = st["k"]
                     if sk == "assign":
